@@ -43,11 +43,18 @@ NamedPath(e) ==
 \* and only when the path is not the root
 UsesAt(e) == e.kind \notin {"missing_element", "missing_key"} /\ e.path # <<>>
 
-\* m = [noun, phrase, has_at, path (parsed back from the text), parsed]
+\* m = [noun, phrase, has_at, path (parsed back from the text), parsed, paths]
+\* the library's present wording (a rewording is not a violation of any property: drift)
 MessageWellFormed(e, m) ==
   /\ m.noun = Noun(e.kind)
   /\ m.phrase = Phrase(e.kind)
   /\ m.has_at = UsesAt(e)
   /\ (UsesAt(e) \/ e.kind \in {"missing_element", "missing_key"}) => (m.parsed /\ m.path = NamedPath(e))
+
+\* C03 "the rendered message names that path": whatever the wording, one of the paths written in
+\* the text (`_[..][..]`, read back accessor by accessor) is the path of the error -- not a prefix
+\* of it, not its leaf, not a sibling's
+NeedsPath(e) == e.path # <<>> \/ e.kind \in {"missing_element", "missing_key"}
+MessageNamesPath(e, m) == NeedsPath(e) => \E j \in DOMAIN m.paths : m.paths[j] = NamedPath(e)
 
 =============================================================================
